@@ -74,6 +74,7 @@ type Node struct {
 	Barrier int
 	BGroup  string // name of a parameter whose value is passed as rendezvous group
 	Prefix  string // text put in front of the command, e.g. "false |" (a pipeline)
+	Prepend string // Process.Prepend (a launcher such as "nice -n 10")
 	PadTo   int
 	Rec     bool // a pass-through recorder is attached to every out-port edge
 	// components
@@ -161,6 +162,12 @@ func (w *WF) Describe() string {
 		}
 		if n.Custom != 0 {
 			fmt.Fprintf(&b, " gofunc=%d", n.Custom)
+		}
+		if n.Prepend != "" {
+			fmt.Fprintf(&b, " prepend=%q", n.Prepend)
+		}
+		if n.Prefix != "" {
+			fmt.Fprintf(&b, " prefix=%q", n.Prefix)
 		}
 		if len(n.Extras) > 0 {
 			fmt.Fprintf(&b, " extras=%v", n.Extras)
